@@ -1333,7 +1333,8 @@ class Process(StateMachine, persistence.Savable, metaclass=ProcessStateMachineMe
         """
         assert not self.has_terminated(), 'Cannot step, already terminated'
 
-        if self.paused and self._paused is not None:
+        while self.paused and self._paused is not None:
+            # (a loop because the process may have been played and paused again before this coroutine woke up)
             await self._paused
             if self.has_terminated():
                 # Killed (or failed) while paused
